@@ -297,26 +297,59 @@ func (w *world) countByte(s []value, c value) value {
 	return mkValue(types.Int, r)
 }
 
-// asciiClass builds ite(r < limit, asciiExpr, UF(r)) for a rune classification.
+// tableTerm builds the exact membership predicate of a unicode.RangeTable
+// (the same tables the real unicode package consults) for the rune term t.
+func (w *world) tableTerm(t *Term, tabs ...*unicode.RangeTable) *Term {
+	tc := w.tc
+	var alts []*Term
+	add := func(lo, hi, stride uint32) {
+		in := rng(tc, t, lo, hi)
+		if stride > 1 {
+			off := tc.BVBin("bvsub", t, tc.BV(32, uint64(lo)))
+			in = tc.And(in, tc.Eq(tc.BVBin("bvurem", off, tc.BV(32, uint64(stride))), tc.BV(32, 0)))
+		}
+		alts = append(alts, in)
+	}
+	for _, tab := range tabs {
+		for _, r := range tab.R16 {
+			add(uint32(r.Lo), uint32(r.Hi), uint32(r.Stride))
+		}
+		for _, r := range tab.R32 {
+			add(r.Lo, r.Hi, r.Stride)
+		}
+	}
+	return tc.Or(alts...)
+}
+
+var classTables = map[string][]*unicode.RangeTable{
+	"unicode.IsLetter":  {unicode.Letter},
+	"unicode.IsDigit":   {unicode.Digit},
+	"unicode.IsNumber":  {unicode.Number},
+	"unicode.IsUpper":   {unicode.Upper},
+	"unicode.IsLower":   {unicode.Lower},
+	"unicode.IsSpace":   {unicode.White_Space},
+	"unicode.IsControl": {unicode.Cc},
+}
+
+// classUF classifies a symbolic rune: exactly, from the real Unicode tables,
+// where a table exists (cached per rune term); strconv.IsPrint/IsGraphic and
+// unicode.IsPrint/IsGraphic stay uninterpreted beyond ASCII (with fixed points).
 func (w *world) classUF(name string, r symv, limit uint32, low func(t *Term) *Term) value {
 	tc := w.tc
 	_, signed := kindWidth(r.k)
 	t := tc.Resize(r.t, 32, signed)
+	if tabs, ok := classTables[name]; ok {
+		key := name + "#" + strconv.Itoa(t.id)
+		if c, hit := w.classCache[key]; hit {
+			return mkValue(types.Bool, c)
+		}
+		c := w.tableTerm(t, tabs...)
+		w.classCache[key] = c
+		return mkValue(types.Bool, c)
+	}
 	inLow := tc.And(tc.BVCmp("bvsge", t, tc.BV(32, 0)), tc.BVCmp("bvslt", t, tc.BV(32, uint64(limit))))
 	uf := tc.App("uf_"+name, boolSort, t)
 	w.ufUsed(name)
-	// Unicode general categories are disjoint: a rune that is a digit or a
-	// number (N*) is not a letter (L*); upper and lower are both letters.
-	switch name {
-	case "unicode.IsDigit", "unicode.IsNumber":
-		uf = tc.And(uf, tc.Not(tc.App("uf_unicode.IsLetter", boolSort, t)))
-	case "unicode.IsUpper":
-		uf = tc.And(uf, tc.App("uf_unicode.IsLetter", boolSort, t), tc.Not(tc.App("uf_unicode.IsLower", boolSort, t)))
-	case "unicode.IsLower":
-		uf = tc.And(tc.App("uf_unicode.IsLower", boolSort, t), tc.App("uf_unicode.IsLetter", boolSort, t))
-	case "unicode.IsSpace", "unicode.IsControl":
-		uf = tc.And(uf, tc.Not(tc.App("uf_unicode.IsLetter", boolSort, t)), tc.Not(tc.App("uf_unicode.IsDigit", boolSort, t)))
-	}
 	// fixed points of the real tables that the code under test mentions by
 	// value: U+FEFF (BOM, Cf) and U+FFFD (replacement char, So), and the
 	// non-code-points (surrogates, > U+10FFFF), which belong to no class.
@@ -739,3 +772,147 @@ func (w *world) validUTF8(b []value) value {
 }
 
 var _ = fmt.Sprint
+
+// envflag.Parse/Init configure flag structs by reflection from struct tags and
+// an environment variable. The model: the environment variable is unset, so
+// every field takes the default of its `envflag:"default:..."` tag.
+func init() {
+	setDefaults := func(w *world, fn *ssa.Function, args []value) (value, bool) {
+		p, ok := args[0].(*value)
+		if !ok || p == nil {
+			return nil, false
+		}
+		pt, ok := fn.Signature.Params().At(0).Type().Underlying().(*types.Pointer)
+		if !ok {
+			return nil, false
+		}
+		st, ok := pt.Elem().Underlying().(*types.Struct)
+		if !ok {
+			return nil, false
+		}
+		fields := (*p).(structure)
+		for i := 0; i < st.NumFields(); i++ {
+			tag := reflect.StructTag(st.Tag(i)).Get("envflag")
+			for _, f := range strings.Split(tag, ",") {
+				key, rest, _ := strings.Cut(f, ":")
+				if key != "default" {
+					continue
+				}
+				switch b := st.Field(i).Type().Underlying().(*types.Basic); {
+				case b != nil && b.Kind() == types.Bool:
+					fields[i] = rest == "true"
+				case b != nil && b.Kind() == types.Int:
+					n, _ := strconv.Atoi(rest)
+					fields[i] = n
+				case b != nil && b.Kind() == types.String:
+					fields[i] = rest
+				}
+			}
+		}
+		return iface{}, true // nil error
+	}
+	envflagExt := func(w *world, _ *frame, fn *ssa.Function, args []value) (value, bool) {
+		return setDefaults(w, fn, args)
+	}
+	genericExternals = append(genericExternals, genericExternal{prefix: "cuelang.org/go/internal/envflag.Init[", fn: envflagExt})
+	genericExternals = append(genericExternals, genericExternal{prefix: "cuelang.org/go/internal/envflag.Parse[", fn: envflagExt})
+}
+
+// genericExternals match instantiations of generic functions by name prefix.
+type genericExternal struct {
+	prefix string
+	fn     externalFn
+}
+
+var genericExternals []genericExternal
+
+// cueexperiment.parseConfig[T] sets experiment flags from struct tags by
+// reflection; modelled natively (same life-cycle rules; error cases abort as
+// unsupported).
+func init() {
+	cmpVer := func(a, b string) int {
+		pa, pb := strings.Split(strings.TrimPrefix(a, "v"), "."), strings.Split(strings.TrimPrefix(b, "v"), ".")
+		for i := 0; i < 3; i++ {
+			var x, y int
+			if i < len(pa) {
+				x, _ = strconv.Atoi(strings.SplitN(pa[i], "-", 2)[0])
+			}
+			if i < len(pb) {
+				y, _ = strconv.Atoi(strings.SplitN(pb[i], "-", 2)[0])
+			}
+			if x != y {
+				if x < y {
+					return -1
+				}
+				return 1
+			}
+		}
+		return 0
+	}
+	genericExternals = append(genericExternals, genericExternal{prefix: "cuelang.org/go/internal/cueexperiment.parseConfig[", fn: func(w *world, c *frame, fn *ssa.Function, args []value) (value, bool) {
+		p, ok := args[0].(*value)
+		if !ok || p == nil {
+			return nil, false
+		}
+		version, ok := args[1].(string)
+		if !ok {
+			return nil, false
+		}
+		if version == "" {
+			lv := w.prog.ImportedPackage("cuelang.org/go/internal/cueversion")
+			if lv == nil {
+				return nil, false
+			}
+			version, _ = w.callSSA(c, 0, lv.Func("LanguageVersion"), nil, nil).(string)
+		}
+		exps, _ := args[2].(*omap)
+		st := fn.Signature.Params().At(0).Type().Underlying().(*types.Pointer).Elem().Underlying().(*types.Struct)
+		fields := (*p).(structure)
+		for i := 0; i < st.NumFields(); i++ {
+			tag, ok := reflect.StructTag(st.Tag(i)).Lookup("experiment")
+			if !ok {
+				continue
+			}
+			name := strings.ToLower(st.Field(i).Name())
+			enabled, has := false, false
+			if exps != nil {
+				if v, ok := exps.lookup(w, name); ok {
+					enabled, has = v.(bool), true
+					exps.delete(w, name)
+				}
+			}
+			disabled := has && !enabled
+			for _, f := range strings.Split(tag, ",") {
+				key, rest, _ := strings.Cut(f, ":")
+				switch key {
+				case "preview":
+					if enabled {
+						if cmpVer(version, rest) < 0 {
+							panic(unsupported("cueexperiment: experiment set before its preview version"))
+						}
+						fields[i] = true
+					}
+				case "default":
+					if cmpVer(version, rest) >= 0 && !disabled {
+						fields[i] = true
+					}
+				case "stable":
+					if cmpVer(version, rest) >= 0 {
+						fields[i] = true
+					}
+					if disabled {
+						panic(unsupported("cueexperiment: stable experiment disabled"))
+					}
+				case "withdrawn":
+					if cmpVer(version, rest) >= 0 && enabled {
+						panic(unsupported("cueexperiment: withdrawn experiment enabled"))
+					}
+				}
+			}
+		}
+		if exps != nil && exps.len() > 0 {
+			panic(unsupported("cueexperiment: unknown experiment name"))
+		}
+		return iface{}, true
+	}})
+}
